@@ -219,6 +219,23 @@ func (c *choiceCasesResolver) getOldBestCaseName() string {
 	return bestCaseName
 }
 
+// getOldPopulatedElementNames returns the names of the elements of the given case that
+// carried a value already before the actual changes got added to the tree.
+func (c *choiceCasesResolver) getOldPopulatedElementNames(caseName string) []string {
+	cas, exists := c.cases[caseName]
+	if !exists {
+		return nil
+	}
+	result := make([]string, 0, len(cas.elements))
+	for name, elem := range cas.elements {
+		if !elem.new && elem.value != math.MaxInt32 {
+			result = append(result, name)
+		}
+	}
+	slices.Sort(result)
+	return result
+}
+
 // GetSkipElements returns the names of all the elements that belong to
 // cases that have not the best priority
 func (c *choiceCasesResolver) GetSkipElements() []string {
